@@ -105,6 +105,14 @@ CHECKS.update({
         design="3/C15"),
 })
 
+CHECKS.update({
+    "C07": dict(
+        technique="property-based testing: census oracle over marker-carrying generated documents with deliberately coinciding names and inserted faults",
+        text="Every object description, enum value and operation summary of a generated document carries a unique marker; names, operationIds, titles and tags come from pools built to coincide; faults are inserted at random. After generation each operation and each object/enum component must be found by its marker in a generated module or be identified (by name, reference path or METHOD path) in a diagnostic; every documented status of a generated operation must be handled (served under raise_on_unexpected_status it does not raise) or named in one of that operation's warnings; request media types must be selectable or warned.",
+        note="wording of diagnostics is never matched; scalar/array components are outside the census; generator crashes are C06's",
+        design="3/C07"),
+})
+
 NOT_YET = {}
 
 def main():
